@@ -1,0 +1,109 @@
+//go:build verif
+
+package goatlang
+
+import (
+	"fmt"
+	"io/fs"
+	"sort"
+)
+
+// Verification hooks, compiled only with -tags verif. They give an external
+// simulator control over the three things it cannot reach through the public
+// API: an instruction budget (so generated scripts that loop forever end with
+// an ordinary run error), the order produced by the map key-list compaction
+// (Go's randomised map iteration, turned into a seeded choice), and the
+// peephole optimizer switch (the public entry points hard-wire it on).
+
+// verifBudget is the number of instructions that may still be dispatched;
+// negative means unlimited. The simulator is single-threaded per process.
+var verifBudget int64 = -1
+
+// VerifBudgetPanic is the panic value raised when the budget is exhausted.
+const VerifBudgetPanic = "verif: budget exhausted"
+
+// VerifSetBudget sets the remaining instruction budget (negative = unlimited).
+func VerifSetBudget(n int64) { verifBudget = n }
+
+// VerifBudget returns the remaining instruction budget.
+func VerifBudget() int64 { return verifBudget }
+
+func verifTick(v *VM) {
+	if verifBudget < 0 {
+		return
+	}
+	if verifBudget == 0 {
+		panic(VerifBudgetPanic)
+	}
+	verifBudget--
+}
+
+// VerifShuffle, when set, permutes a freshly compacted (and, in verif builds,
+// sorted) key list: it is called with the length and a swap function.
+var VerifShuffle func(n int, swap func(i, j int))
+
+// VerifCompactions counts key-list compactions.
+var VerifCompactions int64
+
+func verifOrderStrings(keys []string) {
+	VerifCompactions++
+	sort.Strings(keys)
+	if VerifShuffle != nil {
+		VerifShuffle(len(keys), func(i, j int) { keys[i], keys[j] = keys[j], keys[i] })
+	}
+}
+
+func verifOrderFloats(keys []float64) {
+	VerifCompactions++
+	sort.Float64s(keys)
+	if VerifShuffle != nil {
+		VerifShuffle(len(keys), func(i, j int) { keys[i], keys[j] = keys[j], keys[i] })
+	}
+}
+
+// VerifOptimizeOff disables the peephole optimizer for every compilation.
+var VerifOptimizeOff bool
+
+func verifNoOptimize() bool { return VerifOptimizeOff }
+
+// VerifStages runs the stages of Eval (entry "eval") or Load (entry "load")
+// that the VM does not execute -- tokenize, parse, load, compile -- on a fresh
+// VM, without running anything. It exists so that a watchdog timeout can be
+// attributed either to one of these stages (which must always terminate) or
+// to a script that is merely still running.
+func VerifStages(entry string, sys fs.FS, name, input string) (stage string, err error) {
+	vm := New()
+	switch entry {
+	case "eval":
+		tokens, err := tokenize(name, input)
+		if err != nil {
+			return "tokenize", err
+		}
+		tree, err := parse(tokens)
+		if err != nil {
+			return "parse", err
+		}
+		pkgs, err := loadImports(sys, "", tree)
+		if err != nil {
+			return "loadImports", err
+		}
+		if _, _, err := compilePkgs(vm.globals, pkgs, true); err != nil {
+			return "compile", err
+		}
+		return "done", nil
+	case "load":
+		f := loadPackage
+		if len(name) > 3 && name[len(name)-3:] == ".go" {
+			f = loadFile
+		}
+		pkgs, err := f(sys, name)
+		if err != nil {
+			return "load", err
+		}
+		if _, _, err := compilePkgs(vm.globals, pkgs, true); err != nil {
+			return "compile", err
+		}
+		return "done", nil
+	}
+	return "", fmt.Errorf("unknown entry %q", entry)
+}
